@@ -262,6 +262,12 @@ func (r SendErrReason) String() string {
 // Returns:
 //   - true if the error is temporary, false otherwise.
 func isTempError(err error) bool {
+	// The SMTP error might be wrapped (i. e. by ResetWithSMTPClient), in which case the
+	// error string does not start with the SMTP status code
+	rootErr := errors.Unwrap(err)
+	if rootErr != nil {
+		err = rootErr
+	}
 	return err.Error()[0] == '4'
 }
 
@@ -294,9 +300,16 @@ func enhancedStatusCode(err error, supported bool) string {
 	if firstrune != 50 && firstrune != 52 && firstrune != 53 {
 		return ""
 	}
-	re, rerr := regexp.Compile(`\b([245])\.\d{1,3}\.\d{1,3}\b`)
+	// As per RFC 2034, section 4, the enhanced status code is the first token of the text part
+	// of the reply, directly following the 3 digit status code. A dotted number anywhere else
+	// in the text (i. e. an IP address) is not a status code.
+	re, rerr := regexp.Compile(`^\d{3} ([245]\.\d{1,3}\.\d{1,3})\b`)
 	if rerr != nil {
 		return ""
 	}
-	return re.FindString(err.Error())
+	matches := re.FindStringSubmatch(err.Error())
+	if len(matches) < 2 {
+		return ""
+	}
+	return matches[1]
 }
